@@ -9,6 +9,7 @@ for p in "$@"; do
   /verif/bin/rtcheck -property $p -tier quick -repo $d -no-evidence > $d/.out 2>&1; r=$?
   if [ $r -eq 0 ]; then echo "  $p: quiet (ok)";
   elif [ $r -eq 1 ]; then echo "  $p: FALSE ALARM"; grep -A2 '  FAILED' $d/.out | grep -v '^--' | cut -c1-260 | head -${LINES_MAX:-12}; rc=1;
+  elif grep -q "^UNDECIDED property=" $d/.out; then echo "  $p: UNDECIDED"; grep -A2 '  UNRECOGNISED' $d/.out | grep -v '^--' | cut -c1-260 | head -${LINES_MAX:-12}; rc=1;
   else echo "  $p: TOOL ERROR"; tail -4 $d/.out | cut -c1-300; rc=2; fi
 done
 rm -rf $d
